@@ -12,6 +12,7 @@
 //!   extra_any        requested + up to two more entities of the store (stateless: may return an entity again)
 //!   ancestors_fresh  requested + the entities of their ancestors, except those returned before
 //!   ancestors_any    requested + the entities of their ancestors (stateless)
+//!   all_any          requested + every entity of the store, every time (stateless)
 //! No expectations here: the harness builds the objects, calls the public API and renders.
 use crate::util;
 use cedar_policy::{Authorizer, Entities, Entity, EntityLoader, EntityUid, Policy, PolicyId, PolicySet, Request, Schema, SlotId, Template, ValidationMode, Validator};
@@ -78,6 +79,9 @@ impl EntityLoader for StoreLoader<'_> {
                 // take the first two never returned instead
                 extra = self.order.iter().filter(|u| !self.returned_before.contains(*u) && !uids.contains(*u)).take(2).cloned().collect();
             }
+        } else if self.variant.starts_with("all") {
+            // the whole store, every time
+            extra = self.order.clone();
         } else if self.variant.starts_with("ancestors") {
             for u in uids {
                 if let Some(it) = self.store.ancestors(u) {
